@@ -57,7 +57,11 @@ func stopTree(rng *rand.Rand, root string, dirMode bool) []string {
 		os.WriteFile(filepath.Join(d, "one.bin"), fillBytes(rng, 40000+rng.Intn(20000), 0), 0644)
 		os.WriteFile(filepath.Join(d, "sub", "two.bin"), fillBytes(rng, 30000, 2), 0644)
 		os.WriteFile(filepath.Join(d, "sub", "three.bin"), fillBytes(rng, 100, 0), 0644)
-		return []string{d}
+		// a second root behind the directory: what this transfer created is more than one subtree
+		// (a stop-and-delete after the second root exists has to remove both)
+		f := filepath.Join(root, "s", "after-tree.bin")
+		os.WriteFile(f, fillBytes(rng, 20000, 1), 0644)
+		return []string{d, f}
 	}
 	os.MkdirAll(filepath.Join(root, "s"), 0755)
 	for j, n := range []int{3000, 60000 + rng.Intn(30000), 200} {
@@ -323,7 +327,12 @@ func genStop(c *ctx) {
 							r.cliIn.Write([]byte{'\r'})
 						}()
 					default:
-						r.cmd.Process.Signal(syscall.SIGINT)
+						// the server is stopped by SIGINT or by SIGTERM (kill, session shutdown), alternately
+						if i%2 == 0 {
+							r.cmd.Process.Signal(syscall.SIGINT)
+						} else {
+							r.cmd.Process.Signal(syscall.SIGTERM)
+						}
 					}
 					return
 				}
